@@ -252,11 +252,10 @@ def step (s : DS) (line : String) : DS × String :=
   | "posnum" :: _ =>
     match argNat? ws "n", s.ssi with
     | some n, some ssi => withA s fun a =>
-        let sorted := ssi.prim.qsort (fun x y => x.key.toList < y.key.toList)
-        match sorted[n]? with
+        match findNumber ssi n with
         | none => ({ s with a := some a }, "enotfound")
-        | some e =>
-          let (a, st) := position a e.roff.toNat
+        | some _ =>
+          let (a, st) := positionByNumber a ssi n
           ({ s with a := some a, dead := !(st == .ok || st == .eof) }, st.name)
     | _, _ => (s, if s.unmodelled then "unmodelled" else "bad-op")
   | "fetch" :: _ =>
